@@ -186,7 +186,7 @@ pub fn check_forms(ll_opt: Option<&LongLived>, s: &str, st: &mut Stats) {
 
 // ---- (b) histories -------------------------------------------------------
 
-pub const INPUTS: [&str; 12] = [
+pub const INPUTS: [&str; 14] = [
     "abc",                       // unchanged on every path
     "Abc",                       // changed at index 0 (case-mapped), unchanged elsewhere
     "\u{e9}\u{3000}\u{ff22}",    // changed after a multi-byte prefix (space / width)
@@ -199,6 +199,8 @@ pub const INPUTS: [&str; 12] = [
     "a\u{ff22}\u{ff76}",         // width-mapped characters from the middle of the table
     "   ",                       // only spaces: an error that is found late (after mapping, "empty")
     "a\u{3000}b \u{a0}",         // non-ASCII spaces (the call after an error must still map them)
+    "\u{4e2d}\u{6587}",          // valid ideographs ...
+    "x\u{104e2d}",               // ... and a rejected label with the plane-16 alias of the first (per-thread memo keyed by 16 bits)
 ];
 
 #[derive(Copy, Clone, Debug, PartialEq, Eq)]
@@ -660,7 +662,7 @@ pub fn run(_env: &Env, run: &Run) -> (Stats, Coverage) {
     st.sample(json!({"forms": "UsernameCaseMapped::enforce(\"Abc\") via static/new()/default()/long-lived x &str/String/&String/Cow::Borrowed/Cow::Owned", "expected": "all Ok(\"abc\")"}));
     st.sample(json!({"history": ["Nickname.enforce(U+00A8 a)", "UsernameCaseMapped.compare(Abc, ABC)", "Nickname.enforce(U+00A8 a)"], "expected": "each result equals the result of the same call made first in a fresh process"}));
     let cov = Coverage {
-        rule: format!("(a) every string of length <= {} over 16 symbols x 4 profiles x ({{prepare, enforce}} x 14 (entry point, argument form) pairs (incl. owned Strings with spare capacity), the five rule functions x 3 argument forms) and compare x 8 forms: all equal; (b) every call history of length <= {} over an alphabet of {} calls (4 profiles x {{prepare, enforce, compare, the five rule functions}} x 12 inputs hitting every fast and slow path, incl. errors that are found late) executed on the process-wide statics and on one long-lived instance per profile, every result compared with the result of that call as the FIRST library call of a fresh process ({} child processes); (c) every interleaving of 2-3 threads over the lazy-singleton points, see 'schedules'; (d) inventory of shared-state constructs in the three crates; (e) SAMPLING, supplementary: free-running threads released from a barrier in fresh child processes; (f) race-detector pass for state the explorer has no scheduling point for: every one of ~1000 library calls (4 profiles x static/instance/rule-level entry points, both classes, all 8 context rules x 46 labels) as the first use of the library by 3 threads of a fresh process, and every unordered pair of those calls on 2 free-running threads, under ThreadSanitizer with std rebuilt (see 'race_detector_pass'); non-trivial = histories mixing different calls", n, depth, alpha.len(), alpha.len()),
+        rule: format!("(a) every string of length <= {} over 16 symbols x 4 profiles x ({{prepare, enforce}} x 14 (entry point, argument form) pairs (incl. owned Strings with spare capacity), the five rule functions x 3 argument forms) and compare x 8 forms: all equal; (b) every call history of length <= {} over an alphabet of {} calls (4 profiles x {{prepare, enforce, compare, the five rule functions}} x 14 inputs hitting every fast and slow path, incl. errors that are found late and two labels whose characters agree in their low 16 bits) executed on the process-wide statics and on one long-lived instance per profile, every result compared with the result of that call as the FIRST library call of a fresh process ({} child processes); (c) every interleaving of 2-3 threads over the lazy-singleton points, see 'schedules'; (d) inventory of shared-state constructs in the three crates; (e) SAMPLING, supplementary: free-running threads released from a barrier in fresh child processes; (f) race-detector pass for state the explorer has no scheduling point for: every one of ~1000 library calls (4 profiles x static/instance/rule-level entry points, both classes, all 8 context rules x 46 labels) as the first use of the library by 3 threads of a fresh process, and every unordered pair of those calls on 2 free-running threads, under ThreadSanitizer with std rebuilt (see 'race_detector_pass'); non-trivial = histories mixing different calls", n, depth, alpha.len(), alpha.len()),
         alphabet: json!({"symbols": sigma.iter().map(|c| format!("U+{:04X}", *c as u32)).collect::<Vec<_>>(), "history_inputs": INPUTS.iter().map(|s| show(s)).collect::<Vec<_>>()}),
         bound_completed: format!("forms: {} strings; histories: depth {}", tree_size(sigma.len(), n), depth),
         exhaustive: false,
